@@ -395,6 +395,8 @@ class Outcome:
             print("KNOWN-FINDING: property=%s %s [%s]" % (self.prop, known[sig].get("what", what), sig))
         for sig in known:
             if sig not in seen_known:
+                # every listed finding is named on every run; this one was not among the inputs this run explored
+                print("KNOWN-FINDING: property=%s %s [%s] (listed in known_findings.json; not reproduced by the inputs of this run)" % (self.prop, known[sig].get("what", ""), sig))
                 self.notes.append("listed finding not reproduced in this run: " + sig)
         reported = set()
         rc = 0
